@@ -10,10 +10,11 @@
 (*   ztaken   items in the order consumers took them out of their mailbox [item, by]    *)
 (*   zproc    the value of `processor` after each such take                             *)
 (*   zprod    number of committed p2 steps of the producer (one read of the stream each) *)
-EXTENDS dqueue, Integers
+(*   zcons    number of committed c2 steps of the consumers (one item processed each)     *)
+EXTENDS dqueue, Integers, FiniteSets
 
-VARIABLES zreqs, zhanded, ztaken, zproc, zprod
-zhvars == <<vars, zreqs, zhanded, ztaken, zproc, zprod>>
+VARIABLES zreqs, zhanded, ztaken, zproc, zprod, zcons
+zhvars == <<vars, zreqs, zhanded, ztaken, zproc, zprod, zcons>>
 
 ZConsumers == 1..NUM_CONSUMERS
 
@@ -30,12 +31,13 @@ RECURSIVE ZAllAdded(_), ZAllPopped(_)
 ZAllAdded(zc) == IF zc > NUM_CONSUMERS THEN <<>> ELSE ZTag(ZAdded(network[zc], network'[zc]), "to", zc) \o ZAllAdded(zc + 1)
 ZAllPopped(zc) == IF zc > NUM_CONSUMERS THEN <<>> ELSE ZTag(ZPopped(network[zc], network'[zc]), "by", zc) \o ZAllPopped(zc + 1)
 
-HInit == Init /\ zreqs = <<>> /\ zhanded = <<>> /\ ztaken = <<>> /\ zproc = <<>> /\ zprod = 0
+HInit == Init /\ zreqs = <<>> /\ zhanded = <<>> /\ ztaken = <<>> /\ zproc = <<>> /\ zprod = 0 /\ zcons = 0
 HStep == /\ zreqs' = zreqs \o ZAdded(network[PRODUCER], network'[PRODUCER])
          /\ zhanded' = zhanded \o ZAllAdded(1)
          /\ ztaken' = ztaken \o ZAllPopped(1)
          /\ zproc' = zproc \o [zi \in 1..Len(ZAllPopped(1)) |-> processor']
          /\ zprod' = IF pc[PRODUCER] = "p2" /\ pc'[PRODUCER] # "p2" THEN zprod + 1 ELSE zprod
+         /\ zcons' = zcons + Cardinality({zc \in ZConsumers : pc[zc] = "c2" /\ pc'[zc] # "c2"})
 HNext == Next /\ HStep
 HSpec == HInit /\ [][HNext]_zhvars
 
@@ -64,8 +66,9 @@ HandedToRequester ==
 (* taken yet is still in its mailbox                                                      *)
 TakenOnceInOrder == \A zc \in ZConsumers : ZTakenBy(zc) \o network[zc] = ZHandedTo(zc)
 
-(* the item taken is the one passed to the processor *)
+(* every processing step takes one item out of the mailbox, and that item is the one passed to the processor *)
 ProcessedAsTaken == /\ Len(zproc) = Len(ztaken)
+                    /\ Len(ztaken) = zcons
                     /\ \A zk \in 1..Len(ztaken) : zproc[zk] = ztaken[zk].item
 
 (* state constraints for the exhaustive design-level runs (the history grows for ever) *)
